@@ -407,6 +407,123 @@ func registerIntrinsics(P *Program) {
 		return nil
 	}
 
+	// ---------------- sort (reflection-based helpers) ----------------
+	sliceArg := func(m *Machine, v Value) (SliceVal, int64) {
+		iv := v.(IfaceVal)
+		st, ok := iv.T.Underlying().(*types.Slice)
+		if !ok {
+			m.raise(fault("panic", "sort: argument is not a slice"))
+		}
+		return iv.V.(SliceVal), sizeof(st.Elem())
+	}
+	lessAt := func(m *Machine, less Value, i, j int64) bool {
+		r := m.callValue(less, []Value{m.st.Const(64, uint64(i)), m.st.Const(64, uint64(j))})
+		return m.branch(r.(*Term))
+	}
+	I["sort.SliceIsSorted"] = func(m *Machine, fn *ssa.Function, args []Value) Value {
+		s, _ := sliceArg(m, args[0])
+		for i := s.Len - 1; i > 0; i-- {
+			if lessAt(m, args[1], i, i-1) {
+				return m.st.False
+			}
+		}
+		return m.st.True
+	}
+	sortSlice := func(m *Machine, fn *ssa.Function, args []Value) Value {
+		s, es := sliceArg(m, args[0])
+		if es == 0 {
+			return nil
+		}
+		tmp := m.w.Alloc(es, "sort-swap")
+		tp := Ptr{ID: tmp.id}
+		at := func(i int64) Ptr { return Ptr{ID: s.P.ID, Off: s.P.Off + i*es} }
+		// insertion sort (stable), swapping adjacent elements in place
+		for i := int64(1); i < s.Len; i++ {
+			for j := i; j > 0 && lessAt(m, args[1], j, j-1); j-- {
+				m.copyBytes(tp, at(j), es)
+				m.copyBytes(at(j), at(j-1), es)
+				m.copyBytes(at(j-1), tp, es)
+			}
+		}
+		return nil
+	}
+	I["sort.Slice"] = sortSlice
+	I["sort.SliceStable"] = sortSlice
+
+	// ---------------- sync/atomic (sequential executor: plain loads and stores) ----------------
+	for _, w := range []struct {
+		suffix string
+		size   int64
+	}{{"Int32", 4}, {"Uint32", 4}, {"Int64", 8}, {"Uint64", 8}, {"Uintptr", 8}} {
+		size := w.size
+		I["sync/atomic.Load"+w.suffix] = func(m *Machine, fn *ssa.Function, args []Value) Value {
+			return m.readScalar(m.ptrOperand(args[0]), size)
+		}
+		I["sync/atomic.Store"+w.suffix] = func(m *Machine, fn *ssa.Function, args []Value) Value {
+			m.writeScalar(m.ptrOperand(args[0]), size, args[1].(*Term))
+			return nil
+		}
+		I["sync/atomic.Add"+w.suffix] = func(m *Machine, fn *ssa.Function, args []Value) Value {
+			p := m.ptrOperand(args[0])
+			v := m.st.BV(OpAdd, m.readScalar(p, size), args[1].(*Term))
+			m.writeScalar(p, size, v)
+			return v
+		}
+		I["sync/atomic.Swap"+w.suffix] = func(m *Machine, fn *ssa.Function, args []Value) Value {
+			p := m.ptrOperand(args[0])
+			old := m.readScalar(p, size)
+			m.writeScalar(p, size, args[1].(*Term))
+			return old
+		}
+		I["sync/atomic.CompareAndSwap"+w.suffix] = func(m *Machine, fn *ssa.Function, args []Value) Value {
+			p := m.ptrOperand(args[0])
+			cur := m.readScalar(p, size)
+			if m.branch(m.st.Eq(cur, args[1].(*Term))) {
+				m.writeScalar(p, size, args[2].(*Term))
+				return m.st.True
+			}
+			return m.st.False
+		}
+	}
+	I["sync/atomic.SwapPointer"] = func(m *Machine, fn *ssa.Function, args []Value) Value {
+		p := m.ptrOperand(args[0])
+		old := m.readWord(p)
+		m.writeWord(p, args[1])
+		return old
+	}
+	I["sync/atomic.CompareAndSwapPointer"] = func(m *Machine, fn *ssa.Function, args []Value) Value {
+		p := m.ptrOperand(args[0])
+		cur := m.readWord(p)
+		same := (isNilPV(cur) && isNilPV(args[1]))
+		if cp, ok := cur.(Ptr); ok {
+			if ap, ok2 := args[1].(Ptr); ok2 {
+				same = ptrEq(cp, ap)
+			}
+		}
+		if same {
+			m.writeWord(p, args[2])
+			return m.st.True
+		}
+		return m.st.False
+	}
+	noop := func(m *Machine, fn *ssa.Function, args []Value) Value { return nil }
+	I["sync/atomic.runtime_procPin"] = func(m *Machine, fn *ssa.Function, args []Value) Value { return m.st.Const(64, 0) }
+	I["sync/atomic.runtime_procUnpin"] = noop
+	I["sync.runtime_procPin"] = I["sync/atomic.runtime_procPin"]
+	I["sync.runtime_procUnpin"] = noop
+	I["(*sync.Once).Do"] = func(m *Machine, fn *ssa.Function, args []Value) Value {
+		p := m.ptrOperand(args[0])
+		if f, ok := m.w.AuxR(p).(*flagAux); ok && f.on {
+			return nil
+		}
+		m.w.SetAux(p, &flagAux{on: true})
+		m.callValue(args[1], nil)
+		return nil
+	}
+	I["(*sync.WaitGroup).Add"] = noop
+	I["(*sync.WaitGroup).Done"] = noop
+	I["(*sync.WaitGroup).Wait"] = noop
+
 	// ---------------- runtime linknames used by plenccodec ----------------
 	tokType := func(m *Machine, v Value, what string) types.Type {
 		tt, ok := v.(TypeTok)
